@@ -661,7 +661,11 @@ def verify_function(key, extra=None):
         v = FnVerifier(ctr.qual, ctr, key)
     except BindingError as e:
         return [Ob(key + '#binding', 'D', 'vcgen', UNDECIDED, 0, 'binding error: %s' % e, functions=[ctr.qual])]
-    obs = v.verify()
+    smt.ABSTRACT[0] = ctr.abstract_strings
+    try:
+        obs = v.verify()
+    finally:
+        smt.ABSTRACT[0] = None
     if ctr.refines:
         base = REG.get(ctr.refines)
         if base is None:
